@@ -57,6 +57,24 @@ fn unsupported(reason: impl std::fmt::Display) -> QueryError {
     QueryError::NotImplemented(format!("{reason}; {SUPPORTED}"))
 }
 
+/// A merge query addresses the partial rows' columns BY NAME. Two output
+/// columns under one name (`SELECT id, id ..`, `SELECT COUNT(*), COUNT(*) ..`)
+/// cannot be told apart there: the top-N merge failed to bind, and the
+/// two-phase merge resolved both references to the same partial column and
+/// answered wrong values. Such a statement has no exact partial/final split
+/// by name, so it is refused here and takes the gather path instead.
+fn refuse_duplicate_output_names(output_names: &[String]) -> Result<()> {
+    let mut seen = std::collections::HashSet::new();
+    for n in output_names {
+        if !seen.insert(n.as_str()) {
+            return Err(unsupported(format!(
+                "two output columns are both named `{n}` (alias one of them)"
+            )));
+        }
+    }
+    Ok(())
+}
+
 /// How the initiator must combine what the workers return.
 #[derive(Clone, Copy, Debug, PartialEq, Eq, serde::Serialize)]
 #[serde(rename_all = "snake_case")]
@@ -151,8 +169,10 @@ pub fn plan_distributed(ctx: &ExecutionContext, sql: &str) -> Result<Distributed
                 output_names,
             });
         }
+        refuse_duplicate_output_names(&output_names)?;
         return plan_topn(select, &ol, caps.table, output_names);
     }
+    refuse_duplicate_output_names(&output_names)?;
 
     if select.projection.len() != output_names.len() {
         // A wildcard expanded, or something else changed the arity. Rewriting
